@@ -453,7 +453,95 @@ def rule_h1(ctx):
     ctx.check(not reads_id, "H1-structural-hash", f"{DT}:DerivationTree.structurally_equal", "structural equality ignores ids", site(se), "structurally_equal reads ids", "id-free")
 
 
+def rule_t2(ctx):
+    """Key decoder: the continuation offset (one chr(29) = +27) applies to ONE path component and is reset once the component has been emitted."""
+    TRIE_ = "src/isla/trie.py"
+    f = ctx.repo.func(TRIE_, "trie_key_to_path", "C16.T2")
+    c = f"{TRIE_}:trie_key_to_path"
+    loops = [n for n in walk_local(f) if isinstance(n, ast.For)]
+    if len(loops) != 1:
+        raise Unrecognised("C16.T2", c, "decoder loop not found")
+    lp = loops[0]
+    appends = [x for x in ast.walk(lp) if isinstance(x, ast.Call) and isinstance(x.func, ast.Attribute) and x.func.attr == "append" and src(x.func.value) == "path"]
+    if len(appends) != 1 or "offset" not in src(appends[0]):
+        raise Unrecognised("C16.T2", c, "emission `path.append(offset + ...)` not found")
+    ap_stmt = appends[0]
+    while not isinstance(getattr(ap_stmt, "_parent", None), (ast.If, ast.For)) and getattr(ap_stmt, "_parent", None) is not None:
+        ap_stmt = ap_stmt._parent
+    block = None
+    par = ap_stmt._parent
+    for fld in ("body", "orelse"):
+        b = getattr(par, fld, [])
+        if ap_stmt in b:
+            block = b
+    if block is None:
+        raise Unrecognised("C16.T2", c, "statement block of the emission not found")
+    after = block[block.index(ap_stmt) + 1:]
+    reset = any(isinstance(x, ast.Assign) and src(x.targets[0]) == "offset" and src(x.value) == "0" for x in after)
+    incs = [x for x in ast.walk(lp) if isinstance(x, ast.AugAssign) and src(x.target) == "offset"]
+    if not incs:
+        raise Unrecognised("C16.T2", c, "offset accumulation not found")
+    ctx.check(reset, "T2-decoder-offset-reset", c, "offset reset after each emitted component", site(appends[0]),
+              "the decoder keeps the accumulated continuation offset after emitting a path component: every component that follows an index >= 27 is shifted too "
+              "(key of (27, 0) decodes to (27, 27)), so trie keys()/items() disagree with paths() for nodes with 28 or more children", "offset = 0 after path.append(...)")
+
+
+def rule_h2(ctx):
+    """Pairwise child comparison needs equal child counts: zip() silently stops at the shorter list."""
+    for meth in ("structurally_equal", "__eq__"):
+        f = ctx.repo.func(DT, f"DerivationTree.{meth}", "C16.H2")
+        c = f"{DT}:DerivationTree.{meth}"
+        zips = [x for x in ast.walk(f) if isinstance(x, ast.Call) and call_name(x) == "zip" and len(x.args) == 2 and all("children" in src(a) for a in x.args)]
+        for z in zips:
+            fs = facts(z)
+            ok = any((not f_.positive and "len(" in f_.text and "!=" in f_.text and "children" in f_.text) or (f_.positive and "len(" in f_.text and "==" in f_.text and "children" in f_.text) for f_ in fs)
+            ctx.check(ok, "H2-child-count", c, "zip over two child lists only after their lengths were compared", site(z),
+                      f"`{src(z)}` pairs the children up to the shorter list and no length comparison dominates it: a node whose children are a proper prefix of the other's compares as "
+                      "(structurally) equal although the structural hashes differ", "dominated by a length comparison")
+        if not zips:
+            idx_loops = [x for x in ast.walk(f) if isinstance(x, ast.GeneratorExp) and "range(len(self.children))" in src(x)]
+            if meth == "structurally_equal":
+                if not idx_loops:
+                    raise Unrecognised("C16.H2", c, "child comparison not found")
+                fs = facts(idx_loops[0])
+                ok = has_fact(fs, "len(self.children) != len(other.children)", False)
+                ctx.check(ok, "H2-child-count", c, "children compared index-wise only after their numbers were compared", site(idx_loops[0]), "missing length comparison before the index-wise comparison", "dominated by a length comparison")
+
+
+def rule_o5(ctx):
+    """Node identity: a memoised (lru_cache / cache) function must not hand out DerivationTree nodes it constructs - every caller would get the SAME node objects
+    (same ids) and two places of a tree would share a node."""
+    from ..memo import cached_functions
+    from ..callgraph import SRC_ISLA
+
+    def constructed_in_return(fn):
+        hits = []
+        for r in [x for x in ast.walk(fn) if isinstance(x, ast.Return) and x.value is not None]:
+            for c_ in ast.walk(r.value):
+                if isinstance(c_, ast.Call) and (call_name(c_) or "").split(".")[-1] in ("DerivationTree", "from_parse_tree"):
+                    hits.append(c_)
+        return hits
+
+    n = 0
+    for rel in SRC_ISLA:
+        m = ctx.repo.module(rel, "C16.O5")
+        for q, fn in cached_functions(m):
+            n += 1
+            hits = constructed_in_return(fn)
+            ctx.check(not hits, "O5-no-cached-nodes", f"{rel}:{q}", "memoised function does not return freshly built tree nodes", site(fn),
+                      f"`{q}` is memoised and returns nodes built by `{src(hits[0])[:50] if hits else ''}`: all callers share these node objects, so two open leaves expanded with the same alternative get "
+                      "children with identical ids - find_node() of one returns the path of the other and replace_path() changes the wrong subtree", "nodes are created per use")
+    fx = ast.parse("@cache\ndef expansions(nt):\n    return [[DerivationTree(c, None) for c in e] for e in G[nt]]\n")
+    if not constructed_in_return(fx.body[0]):
+        raise Unrecognised("C16.O5", "fixture", "positive fixture did not fire")
+    if n < 15:
+        raise Unrecognised("C16.O5", "src/isla", f"only {n} memoised functions found")
+
+
 def run(ctx) -> str:
+    ctx.guarded("T2", lambda: rule_t2(ctx))
+    ctx.guarded("H2", lambda: rule_h2(ctx))
+    ctx.guarded("O5", lambda: rule_o5(ctx))
     ctx.guarded("O1", lambda: rule_o1(ctx))
     ctx.guarded("O3", lambda: rule_o3(ctx))
     ctx.guarded("O4", lambda: rule_o4(ctx))
